@@ -238,6 +238,16 @@ def extract():
         r"if\s+(?:slot\s*\.\s*is_none\s*\(\s*\)|unsafe\s*\{\s*\(\s*\*\s*slot\s*\)\s*\.\s*is_none\s*\(\s*\)\s*\})\s*\{\s*"
         r"(?:\*\s*slot\s*=\s*Some\s*\(\s*elem\s*\)\s*;|unsafe\s*\{\s*\*\s*slot\s*=\s*Some\s*\(\s*elem\s*\)\s*\}\s*;)\s*\}\s*else\s*\{", twn))
     facts["slotAssignments"] = len(re.findall(r"\*\s*slot\s*=", no_hooks))
+    # lock modes of the slot accesses: `read` takes the slot's lock shared, `try_write` and the teardown exclusively,
+    # and nothing else touches `children`
+    rd = body_of(no_hooks, r"fn\s+read\s*\(\s*&self\s*,\s*index")
+    dr = body_of(no_hooks, r"fn\s+drop_recursive\s*\(")
+    def lock_calls(b):
+        return re.findall(r"child_locks\s*\.\s*get_unchecked\s*\(\s*\w+\s*\)\s*\.\s*(read|write|try_read|try_write|upgradable_read)\s*\(", b or "")
+    facts["slotReadUnderReadLock"] = lock_calls(rd) == ["read"]
+    facts["slotWriteUnderWriteLock"] = lock_calls(twn) == ["write"]
+    facts["teardownUnderWriteLock"] = lock_calls(dr) == ["write"]
+    facts["slotCellAccessSites"] = len(re.findall(r"children\s*\.\s*get_unchecked\s*\(\s*\w+\s*\)\s*\.\s*get\s*\(\s*\)", no_hooks))
 
     # ---- derive macro: comparator of the generated range assertion ------------------------------
     dl = strip_comments(read("cstree-derive/src/lib.rs"))
